@@ -85,6 +85,47 @@ Fixpoint store_polls (c : cron_conf) (last : option Z) (tss : list Z) : list boo
                else false :: store_polls c last r
   end.
 
+(* several runners, each with its own cache of the last execution (BaseTrigger._last_cron_execution_cache), poll one
+   store one after the other.  runner_poll = _should_trigger_cron_condition of one runner: (stored value, its cache)
+   -> (stored value, its cache, fired).  The compare-and-swap expects the value the runner went on with. *)
+Definition opt_eqb (a b : option Z) : bool :=
+  match a, b with None, None => true | Some x, Some y => x =? y | _, _ => false end.
+
+Definition runner_poll (c : cron_conf) (st cache : option Z) (ts : Z) : option Z * option Z * bool :=
+  if match cache with Some l => negb (cron_sat c ts (Some l)) | None => false end
+  then (st, cache, false)                          (* the cache short cut: the store is not consulted *)
+  else
+    let seen := if f_cron_storage_read_always F then st
+                else match cache with Some l => Some l | None => st end in
+    let cache1 := match seen with Some l => Some l | None => cache end in
+    if store_sat c ts seen then
+      if opt_eqb seen st then (Some ts, Some ts, true)
+      else (st, match st with Some l => Some l | None => cache1 end, false)   (* "another process beat us to it" *)
+    else (st, cache1, false).
+
+Fixpoint upd {A} (i : nat) (x : A) (l : list A) : list A :=
+  match l, i with
+  | [], _ => []
+  | _ :: r, O => x :: r
+  | y :: r, S j => y :: upd j x r
+  end.
+
+Fixpoint mr_polls (c : cron_conf) (st : option Z) (caches : list (option Z)) (ps : list (nat * Z)) : list bool :=
+  match ps with
+  | [] => []
+  | (r, ts) :: rest =>
+      match runner_poll c st (nth r caches None) ts with
+      | (st1, c1, b) => b :: mr_polls c st1 (upd r c1 caches) rest
+      end
+  end.
+
+(* a runner's cache never runs ahead of the store *)
+Definition cache_le (st cache : option Z) : Prop :=
+  match cache with
+  | None => True
+  | Some l => match st with Some l' => l <= l' | None => False end
+  end.
+
 (* ghost: the scheduled minutes the fired polls were attributed to, oldest first *)
 Fixpoint fired_minutes (c : cron_conf) (last : option Z) (tss : list Z) : list Z :=
   match tss with
